@@ -579,6 +579,10 @@ func randRows(c *Ctx) string {
 		case 3: // multi-byte characters
 			row = []string{"ä", "€", "日本", "ß"}[c.Rng.Intn(4)] + row + []string{"", "é", "語"}[c.Rng.Intn(3)]
 		}
+		if c.Rng.Intn(12) == 0 {
+			// characters that only a text (not an HTML) renderer leaves alone
+			row = []string{"+254 ", "R&D ", "a<b ", "it's ", "\"q\" "}[c.Rng.Intn(5)] + row
+		}
 		rows = append(rows, row)
 	}
 	s := strings.Join(rows, "\n")
